@@ -29,7 +29,16 @@ func main() {
 	a := c.ParseArgs()
 	c.Quiet()
 	r := c.NewRng(a.Seed)
-	w := newWorld()
+	w, err := newWorld()
+	if err != nil {
+		// the real start-up path (environment -> LoadConfig -> Validate -> NewAuthenticatorMux) failed on a
+		// configuration that is valid for the unchanged code: an observation ("StartError"), written as one
+		// case that no prediction of the model matches
+		js := map[string]interface{}{"note": "sso-auth could not be started from the driver's environment", "start_error": err.Error(), "environment": buildEnv()}
+		c.Must(c.WriteShards(a.Out, "Corr_C10_shards", []c.Case{{Coq: "Case 0 Google [] TransportErr TransportErr [] OPanic false false None", JSON: js}}, a.Shard))
+		fmt.Printf("cases=1 (start error: %v)\n", err)
+		return
+	}
 	defer w.close()
 
 	var cases []c.Case
